@@ -285,5 +285,5 @@ func run(c Case) vt.Verdict {
 }
 
 func TestProp(t *testing.T) {
-	vt.Run(t, prop, vt.Sub[Case]{Prop: prop, Name: "namespace", Gen: gen, Run: run, Classify: classify}.WithBudget(1200, 12000))
+	vt.Run(t, prop, vt.Sub[Case]{Prop: prop, Name: "namespace", Gen: gen, Run: run, Classify: classify}.WithBudget(3000, 12000))
 }
